@@ -225,12 +225,13 @@ class Session:
             return
         before = (len(self.t.out), self.t.pos, len(world(self.I).spawned))
         qlen = self.queue_len()
+        was_partial = self.server.idle_reply_partial()
         r = poll_value(self.I, self.loop, CX)
         self.loop_dirty = False
         if r.variant == 'Ready':
             self.loop_done = True
             self.I.drop_value(self.loop)      # the task's future is dropped when it completes
-        if self.server.idle_reply_partial() and (self.queue_len() < qlen or self.loop_done):
+        if (was_partial or self.server.idle_reply_partial()) and (self.queue_len() < qlen or self.loop_done):
             # the loop took a request from the queue (or ended) although it had consumed a changed: line of an idle reply
             # whose OK it has not consumed: the receive future holding that line was dropped
             self.flags.add('idle_reply_dropped')
@@ -461,6 +462,8 @@ class Session:
         elif k == 'change':
             names = budget.get('names', [b'player', b'mixer', b'foo'])
             n = names[budget.get('nchanged', 0) % len(names)]
+            if isinstance(n, str):
+                n = n.encode('latin1')
             budget['nchanged'] = budget.get('nchanged', 0) + 1
             budget['change'] -= 1; self.change(n)
         elif k == 'tick': budget['tick'] -= 1; self.tick()
